@@ -106,8 +106,8 @@ impl Prop for C16 {
             Tier::Tiny => 50,
         }
     }
-    fn required_probes(&self) -> Vec<&'static str> {
-        vec![
+    fn required_probes(&self) -> Vec<String> {
+        let v: Vec<&str> = vec![
             "mss_raised_by_mav_alone",
             "cls_with_non_empty_queue",
             "stb_bit2_alone",
@@ -119,7 +119,8 @@ impl Prop for C16 {
             "selftest_failing",
             "ese_out_of_range",
             "stb_with_mav_other_controller_unread",
-        ]
+        ];
+        v.into_iter().map(String::from).collect()
     }
 
     fn gen(&self, seed: u64, run: u64, _tier: Tier) -> Trace {
